@@ -158,8 +158,16 @@ class Gen:
             d = g.randrange(self.n)
             if d != r and g.random() < 0.6:
                 # make d a near-copy of r, then disturb which keys are present / zero
-                self.form[d] = self.form[r]
-                self.emit(f"clone {d} {r}", d, b[r])
+                if allow_conv and g.random() < 0.5:
+                    # ... in ANOTHER representation: equality across representations, both directions, before and after
+                    f2 = g.choice([f for f in FORMS if f != self.form[r]])
+                    self.form[d] = f2
+                    self.emit(f"conv {d} {r} {f2}", d, b[r])
+                    self.emit(f"eq {r} {d}")
+                    self.emit(f"eq {d} {r}")
+                else:
+                    self.form[d] = self.form[r]
+                    self.emit(f"clone {d} {r}", d, b[r])
                 k2, k3 = g.sample(self.keys if self.variant else KEYS, 2)
                 choice = g.randrange(4)
                 if choice == 0:
@@ -547,7 +555,8 @@ def lockstep_issues(group_cases, impl_lines):
             read, regs = split_step(s)
             if op.split()[0] == "gets" and not keep_gets:
                 read = "*"
-            out.append((read, tuple(tuple(r[1:]) for r in regs)))
+            # (the Display text goes through string lookups: with a stock and a variant key of one symbol it is not defined)
+            out.append((read, tuple(tuple(r[1:6] if group_cases[0].get("variant") else r[1:]) for r in regs)))
         return out
     base = strip(by_form["vec"], False)
     for f in ("map", "evec", "emap"):
